@@ -1799,6 +1799,124 @@ fn gen_call_fixed(g: &mut Gen, h: &Hist, f: usize, slot: u32) -> Op {
     Op::Call { f, slot, actor: 0, pure_, value: g.serial * 2 + 1, ok: true, len: None, pred: true, check: false }
 }
 
+/// Direct rules for the corpus "extras" (self-recursive by name, unit-returning, clashing names):
+/// forms the descriptor-driven histories cannot express.  Runs once per process, before any
+/// other decorated function is used, on a thread of its own.
+fn extras_probe(rep: &mut Report, focus: &str, seed: u64) {
+    if !matches!(focus, "C01" | "C03" | "C04" | "C15" | "C16" | "C17" | "C19") {
+        // the clashing names still have to be registered first in every process
+        for d in corpus::EXTRAS.iter().filter(|d| d.kind == "dup") {
+            let _ = std::panic::catch_unwind(|| (d.call)(1));
+        }
+        return;
+    }
+    let focus = focus.to_string();
+    let focus_t = focus.clone();
+    let out: Vec<(String, String, String, Value)> = std::thread::spawn(move || {
+        let focus = focus_t;
+        let mut viol: Vec<(String, String, String, Value)> = vec![];
+        let mut rng = Rng::new(seed ^ 0xE17A5);
+        vhooks::disarm_exec();
+        vhooks::arm_pred(None);
+        vhooks::arm_check(None);
+        vhooks::arm_nested(None);
+        let order: Vec<&corpus::ExtraDesc> = corpus::EXTRAS.iter().filter(|d| d.kind == "dup").chain(corpus::EXTRAS.iter().filter(|d| d.kind != "dup")).collect();
+        for d in order {
+            let flavour = if d.is_async { "async" } else if d.scope_thread { "thread" } else { "global" };
+            let sg = |p: &str, kind: &str| format!("{}|L2|{}|{}|{}|{}", p, flavour, d.policy, kind, d.kind);
+            let wit = |args: &Vec<u32>| json!({"monitor": "l2mon-extras", "fid": d.fid, "fn": d.fn_name, "attrs": d.attr_text, "args_so_far": args, "seed": seed});
+            // expected value of the undecorated function
+            let expect = |a: u32| -> u64 {
+                match d.kind {
+                    "unit" => 0,
+                    "dup" => vhooks::mix(d.fid, (d.digest)(a)),
+                    _ => {
+                        let mut v = 0u64;
+                        let mut i = a;
+                        loop {
+                            v = v.wrapping_add(vhooks::mix(d.fid, (d.digest)(i)));
+                            if i % 16 == 0 {
+                                break;
+                            }
+                            i -= 1;
+                        }
+                        v
+                    }
+                }
+            };
+            let n = if d.kind == "dup" { 4 } else { 40 };
+            let mut execs: HashMap<u64, u32> = HashMap::new();
+            let mut args: Vec<u32> = vec![];
+            for step in 0..n {
+                let a = if step > 0 && rng.chance(1, 4) { args[rng.usize(args.len())] } else { rng.usize(48) as u32 };
+                let repeat_of_last = args.last() == Some(&a);
+                args.push(a);
+                vhooks::take_log();
+                let r = std::panic::catch_unwind(|| (d.call)(a));
+                let ev = vhooks::take_log();
+                let mut ran = 0;
+                for e in &ev {
+                    if let Event::Exec { fid, digest, .. } = e {
+                        if *fid == d.fid {
+                            *execs.entry(*digest).or_insert(0) += 1;
+                            ran += 1;
+                        }
+                    }
+                }
+                match r {
+                    Err(p) => {
+                        let msg = panic_text(p);
+                        if msg.starts_with(vmon::lockmon::SELF_DEADLOCK) {
+                            viol.push(("C17".into(), sg("C17", "recursive-call-blocks-forever"), format!("{}({}) can never return: {}", d.fn_name, a, msg), wit(&args)));
+                        } else {
+                            viol.push(("C16".into(), sg("C16", "panic-in-decorated-call"), format!("{}({}) panicked: {}", d.fn_name, a, msg), wit(&args)));
+                        }
+                        break;
+                    }
+                    Ok(v) => {
+                        if v != expect(a) {
+                            viol.push(("C01".into(), sg("C01", "returned-value-differs-from-undecorated-function"), format!("{}({}) returned {:x}, the undecorated function returns {:x}", d.fn_name, a, v, expect(a)), wit(&args)));
+                            break;
+                        }
+                    }
+                }
+                // an argument tuple that was the outermost (last) store of the previous call is still there
+                if repeat_of_last && ran > 0 && d.attr_text.find("max_memory").is_none() && matches!(d.policy, "fifo" | "lru") {
+                    viol.push(("C03".into(), sg("C03", "repeat-of-the-previous-call-recomputed"), format!("{}({}) ran its body {} times although the previous call had just stored that result", d.fn_name, a, ran), wit(&args)));
+                    break;
+                }
+                if let (Some(lim), false) = (d.limit, d.scope_thread) {
+                    if let Some(l) = listing(d.fn_name) {
+                        if l.len() > lim {
+                            viol.push(("C04".into(), sg("C04", "limit-exceeded"), format!("{} holds {} entries after a call, limit {}", d.fn_name, l.len(), lim), wit(&args)));
+                            break;
+                        }
+                    }
+                }
+            }
+            // nothing bounds the cache: every argument tuple ran its body exactly once, however it
+            // was reached (directly or through the function calling itself)
+            if d.limit.is_none() && d.attr_text.find("max_memory").is_none() && d.attr_text.find("ttl").is_none() {
+                if let Some((dg, c)) = execs.iter().find(|(_, c)| **c != 1) {
+                    let which = (0..64u32).find(|a| (d.digest)(*a) == *dg);
+                    viol.push(("C03".into(), sg("C03", "not-exactly-once"), format!("{} ran its body {} times for argument {:?} (unbounded cache, no invalidation)", d.fn_name, c, which), wit(&args)));
+                }
+            }
+        }
+        viol.retain(|v| v.0 == focus || (focus == "C19" && v.0 == "C03"));
+        viol
+    })
+    .join()
+    .unwrap_or_default();
+    rep.count("L2", "extras_probed", corpus::EXTRAS.len() as u64);
+    for p in ["C01", "C03", "C04", "C16", "C17"] {
+        rep.count(p, "calls_of_self_recursive_and_unit_functions", if p == focus { 40 * corpus::EXTRAS.iter().filter(|d| d.kind != "dup").count() as u64 } else { 0 });
+    }
+    for (p, sig, what, wit) in out {
+        rep.violation(&p, &sig, &what, wit);
+    }
+}
+
 /// Names that declare tags / events / dependencies but belong to no cache that was ever used
 /// (metadata registered through the public registry API, no clear callback): C12 counts and
 /// empties the *used* matching caches, whatever else is registered under the same tag.
@@ -1868,6 +1986,17 @@ fn main() {
     if let Some(path) = replay {
         let doc: Value = serde_json::from_str(&std::fs::read_to_string(&path).expect("read replay")).expect("json");
         let w = if doc.get("witness").is_some() { &doc["witness"] } else { &doc };
+        if w["monitor"] == "l2mon-extras" {
+            let p = doc["property"].as_str().unwrap_or("C03").to_string();
+            extras_probe(&mut rep, &p, w["seed"].as_u64().unwrap_or(1));
+            rep.write(&out);
+            if rep.violations.is_empty() {
+                println!("REPLAY: the probe ran to the end without a violation");
+                std::process::exit(0);
+            }
+            println!("REPLAY: violation reproduced: {}", rep.violations[0]["what"]);
+            std::process::exit(1);
+        }
         let fids: Vec<u64> = w["group"].as_array().unwrap().iter().map(|x| x.as_u64().unwrap()).collect();
         let group: Vec<usize> = fids.iter().map(|fid| corpus::FUNCS.iter().position(|d| d.fid as u64 == *fid).expect("fid")).collect();
         let mut ops: Vec<Op> = w["ops"].as_array().unwrap().iter().map(op_from).collect();
@@ -1875,10 +2004,20 @@ fn main() {
         if single_actor {
             // counterfactual for C14: the same history with every call issued by one thread
             n_actors = 1;
-            for o in ops.iter_mut() {
-                if let Op::Call { actor, .. } = o {
-                    *actor = 0;
+            fn one_thread(o: &mut Op) {
+                match o {
+                    Op::Call { actor, .. } => *actor = 0,
+                    Op::Nested { outer, inner, .. } => {
+                        one_thread(outer);
+                        if let Some(i) = inner {
+                            one_thread(i);
+                        }
+                    }
+                    _ => {}
                 }
+            }
+            for o in ops.iter_mut() {
+                one_thread(o);
             }
         }
         let hseed = w["seed"].as_u64().unwrap();
@@ -1937,6 +2076,7 @@ fn main() {
         }
         return;
     }
+    extras_probe(&mut rep, &focus, seed ^ (round << 8) ^ ((shard.0 as u64) << 40));
     let mut rng = Rng::new(seed.wrapping_mul(0x2545_F491_4F6C_DD1D) ^ (round << 20));
     // this round's permutation of the functions in focus (same in every shard), then this shard's share
     let mut perm = cand.clone();
